@@ -12,7 +12,9 @@ RULE = (
     'layout (incl. blinds shorter than the stack, heads-up, dead seats) and '
     'on the stud games with up-cards dealt explicitly from 2-4 ranks so that '
     'rank ties, pairs, trips and equal exposed hands are frequent; all-in '
-    'openers. At the first decision of every betting round (state with an '
+    'openers; int, Fraction, float and Decimal chips (forced bets below one '
+    'chip unit included); strict and, in cash games, lenient warnings. At '
+    'the first decision of every betting round (state with an '
     'actor whose last logged operation is not a betting operation) the '
     'engine\'s actor is compared with the independent opener model; the '
     'bring-in poster likewise. Non-trivial = a hand with >= 2 judged round '
@@ -32,7 +34,7 @@ REQUIRED = ('openings_checked', 'stud_low_card_openings',
             'position_later_round', 'opener_passed_clockwise',
             'rank_ties_broken_by_suit', 'exposed_hand_ties',
             'headsup_openings', 'straddle_or_post_layouts',
-            'bring_in_posters_checked')
+            'bring_in_posters_checked', 'fractional_blind_openings')
 
 BETTING = ('Folding', 'CheckingOrCalling', 'BringInPosting',
            'CompletionBettingOrRaisingTo')
@@ -72,6 +74,8 @@ class OpenerMonitor(Monitor):
         if op == 'POSITION':
             if any(s.bets):
                 ctx.counters['position_first_round'] += 1
+                if any(0 < abs(x) < 1 for x in s.blinds_or_straddles):
+                    ctx.counters['fractional_blind_openings'] += 1
                 b = s.blinds_or_straddles
                 if any(x < 0 for x in b) or sum(1 for x in b if x > 0) > 2 \
                         or (len([x for x in b if x]) == 1):
@@ -100,6 +104,9 @@ class OpenerMonitor(Monitor):
                     ctx.counters['exposed_hand_ties'] += 1
 
     def on_op(self, ctx, s, op):
+        if type(op).__name__ == 'Folding' and self.expect_bring_in is not None:
+            ctx.violate(f'player {op.player_index} folded while the bring-in '
+                        f'of player {self.expect_bring_in} was pending')
         if type(op).__name__ == 'BringInPosting':
             ctx.counters['bring_in_posters_checked'] += 1
             if self.expect_bring_in is not None \
@@ -107,6 +114,9 @@ class OpenerMonitor(Monitor):
                 ctx.violate(f'bring-in posted by {op.player_index}, model '
                             f'says {self.expect_bring_in}')
             self.expect_bring_in = None
+        elif type(op).__name__ in BETTING and \
+                type(op).__name__ != 'Folding':
+            self.expect_bring_in = None      # completed instead of posting
 
     def on_end(self, ctx, s):
         if self.judged >= 2:
@@ -124,7 +134,9 @@ def gen_kwargs(rng):
         games=gen.STUD_GAMES if stud else tuple(
             g for g in gen.ALL_GAMES if g not in gen.STUD_GAMES),
         customs=('stud5',) if stud else ('greek', 'draw5', 'kuhn', 'random'),
-        p_custom=0.15, chip_types=('int',), max_boards=1, strict_p=1.0,
+        p_custom=0.15,
+        chip_types=('int', 'int', 'int', 'Fraction', 'float', 'Decimal'),
+        max_boards=1, strict_p=0.85,
         auto_styles=('typical', 'any'),
     )
 
@@ -137,6 +149,8 @@ def pol_tweak(pol, cfg, rng):
 
 
 def cfg_filter(cfg, rng):
+    if not cfg['strict'] and cfg['mode'] != 'CASH_GAME':
+        cfg['strict'] = True      # lenient = cash game with warned folds
     # dealing must be manual for the rigged up-cards
     stud = cfg.get('game') in gen.STUD_GAMES or cfg.get('template') == 'stud5'
     if stud and rng.random() < 0.85:
